@@ -1,7 +1,7 @@
 (* Dispatchers for walk / glob / file-object models. *)
 From Coq Require Import List NArith ZArith Bool Arith String.
 From PyFS Require Import Base.PyStr Base.Outcome Base.Render Path.PathModel Path.PathSpec FS.Tree FS.Ops
-     FS.Agree Glob.ShellSpec Walk.WalkModel Walk.WalkOpts IO.MemFile.
+     FS.Agree Glob.ShellSpec Walk.WalkModel Walk.WalkOpts IO.MemFile Route.Route.
 Import ListNotations.
 Local Open Scope string_scope. Local Open Scope list_scope.
 
@@ -118,3 +118,37 @@ Definition run_file (name : str) (args : list str) : str :=
     else lit "?unknown"
   | [] => lit "?args"
   end.
+
+(* routing: "mount" <path> <n> <mount path 1> ... ; "order" <n> <prio sign mag>... *)
+Definition r_route (o : outcome (option (nat * str))) : str :=
+  r_outcome (r_option (r_pair r_nat r_str)) o.
+
+Fixpoint build_mounts (paths : list str) (i : nat) (acc : mounts) : mounts :=
+  match paths with
+  | [] => acc
+  | p :: r => match mount_add acc p i with
+              | Ok (Some m) => build_mounts r (S i) m
+              | _ => build_mounts r (S i) acc
+              end
+  end.
+
+Fixpoint build_members (ts : list str) (i : nat) : list member :=
+  match ts with
+  | sg :: mg :: r =>
+    let z := match mg with x :: _ => Z.of_N x | [] => 0%Z end in
+    {| m_prio := if tbool sg then (- z)%Z else z; m_index := i; m_id := i |} :: build_members r (S i)
+  | _ => []
+  end.
+
+Definition run_route (name : str) (a : list str) : str :=
+  if str_eqb name (lit "mount") then
+    match a with
+    | path :: _ :: mps => r_route (mount_delegate (build_mounts mps 0 []) path)
+    | _ => lit "?args"
+    end
+  else if str_eqb name (lit "mountable") then
+    (* which of the mount requests are accepted, in order *)
+    r_list r_nat (map snd (build_mounts a 0 []))
+  else if str_eqb name (lit "order") then
+    r_list r_nat (map m_id (iterate_fs (build_members a 0)))
+  else lit "?unknown".
